@@ -1,21 +1,31 @@
 import Glom.Py.Json
-import Glom.Spec.C14
+import Glom.Spec.C14Mode
 import Glom.Model.C01
 import Glom.Model.C14Env
 /-
   C14 driver: one JSON case in, one JSON verdict out.
 
-  case:  {"classes":[[cls,{"mro":[…],"dict":b,"iter":b}]…], "heap":[Obj…], "target":Val,
+  case:  {"classes":[[cls,{"mro":[…],"dict":b,"iter":b,"reg":""|"rev"|"off"}]…], "heap":[Obj…], "target":Val,
+          ("reg": the class is registered on the Glommer the case runs with, with an `iterate` handler of
+           its own: reversed order / False),
           "spelling": {"text":"a.*.b"} | {"parts":[{"seg":Val} | {"t":[[op,Val]…]}…]},
           "mut": null | {"kind":"assign","val":Val,"missing":null|"dict"|"list"} | {"kind":"delete","ignore":b}
                  (the final step of the spelling — seg / T[..] / T.attr — gives the op of the mutation),
           "sroot": null | {"var": name, "first": "[" | "." | "P"}
+          "path_star": bool (absent = true): the module switch PATH_STAR while the case runs (text spellings),
+          "co": null | {"alts":[spelling…], "default": bool, "via": "coalesce" | "glom"}
+                 (instead of "spelling": Coalesce(*alts[, default=D]) resp. glom(target, alt, default=D);
+                  impl: {"co": {"ok":LRes} | "dflt" | {"other":cls}}),
+          a part may be {"path":[part…]}: a Path object among the arguments of Path(...)
                  (the path is spelled from S: S[name]… / S.name… / Path(S, name, …) with the target as the
                   scope variable `name` — `glom(other, spec, scope={name: target})`; modelled as the
                   T-rooted evaluation on the same data: the first step names the variable
                   (`_s_first_magic`), the remainder after a wildcard is rooted at T (facts obligation)),
-          "impl": {"ok":Res} | "pae" | {"other":cls} | {"mutated":[Obj…],"err":cls|null} | "timeout"}
-  Res:   {"v":Val} | {"l":[Res…]}
+          "impl": {"read": {"out": {"ok":LRes} | "pae" | {"other":cls}, "heap":[Obj…], "calls":[[addr,name]…]}}
+                  | "pae" | {"other":cls} | {"mutated":[Obj…],"err":cls|null} | "timeout" | "skip"}
+  a `t` part may contain a method call: [".", {"s": name}] followed by ["(", [Val…]] (the arguments);
+  modelled names: pop, append, __next__, fail (anything else: the case is skipped)
+  LRes:  {"v":Val} | {"l":[LRes…], "id": n}      (n: the identity of that list object, renumbered)
 -/
 namespace Glom.C14.Driver
 open Lean Glom Glom.C14
@@ -29,12 +39,117 @@ partial def resToJson : Res → Json
   | .val v => Json.mkObj [("v", valToJson v)]
   | .list xs => Json.mkObj [("l", Json.arr (xs.map resToJson).toArray)]
 
+partial def lresOfJson (j : Json) : Except String LRes := do
+  if let .ok v := j.getObjVal? "v" then return .val (← valOfJson v)
+  else if let .ok (.arr a) := j.getObjVal? "l" then
+    return .list (← j.getObjValAs? Nat "id") (← a.toList.mapM lresOfJson)
+  else throw s!"bad LRes {j.compress}"
+
+partial def lresToJson : LRes → Json
+  | .val v => Json.mkObj [("v", valToJson v)]
+  | .list i xs => Json.mkObj [("l", Json.arr (xs.map lresToJson).toArray), ("id", toJson i)]
+
+def callsOfJson (j : Json) : Except String (List (Nat × String)) :=
+  listOfJson (pairOfJson natOfJson strOfJson) j
+
+def obsSOfJson (j : Json) : Except String ObsS := do
+  let o ← j.getObjVal? "out"
+  let out : OutS ← (match o with
+    | .str "pae" => pure OutS.pae
+    | _ =>
+      if let .ok r := o.getObjVal? "ok" then return OutS.ok (← lresOfJson r)
+      else if let .ok c := o.getObjValAs? String "other" then pure (OutS.other c)
+      else throw s!"bad out {o.compress}" : Except String OutS)
+  return { out := out, heap := ← heapOfJson (← j.getObjVal? "heap"), calls := ← callsOfJson (← j.getObjVal? "calls") }
+
+def obsSToJson (o : ObsS) : Json :=
+  Json.mkObj [("out", match o.out with
+      | .ok r => Json.mkObj [("ok", lresToJson r)]
+      | .pae => Json.str "pae"
+      | .other c => Json.mkObj [("other", c)]),
+    ("heap", heapToJson o.heap),
+    ("calls", Json.arr (o.calls.map (fun c => Json.arr #[toJson c.1, Json.str c.2])).toArray)]
+
+def obsSEq (a b : ObsS) : Bool :=
+  a.heap == b.heap && a.calls == b.calls &&
+  (match a.out, b.out with
+   | .ok r, .ok r' => Res.beq r.erase r'.erase && nodupB r.labels == nodupB r'.labels
+   | .pae, .pae => true
+   | .other c, .other c' => c == c'
+   | _, _ => false)
+
+/-- a part as spelled: a plain segment or the recorded ops of a T expression (the argument of a `(`
+    op is the list of call arguments) -/
+inductive RawPart where
+  | seg (v : Val)
+  | t (ops : List (String × Json))
+
+/-- the parts of `Path(*args)`: a Path among the arguments contributes its own parts -/
+partial def rawPartsOfJson (j : Json) : Except String (List RawPart) := do
+  let mut out : List RawPart := []
+  for p in ← arrOf j do
+    if let .ok v := p.getObjVal? "seg" then out := out ++ [.seg (← valOfJson v)]
+    else if let .ok t := p.getObjVal? "t" then
+      out := out ++ [.t (← listOfJson (pairOfJson strOfJson (fun x => pure x)) t)]
+    else if let .ok ps := p.getObjVal? "path" then out := out ++ (← rawPartsOfJson ps)
+    else throw s!"bad part {p.compress}"
+  return out
+
+def rawPartsOfSpelling (pathStar : Bool) (sp : Json) : Except String (List RawPart) := do
+  if let .ok t := sp.getObjValAs? String "text" then
+    return (partsOfTextMode pathStar t.toList).map (fun p => match p with
+      | .seg v => RawPart.seg v
+      | .t st => RawPart.t (st.map (fun q => (q.1, valToJson q.2))))
+  else rawPartsOfJson (← sp.getObjVal? "parts")
+
+def obsCoOfJson (j : Json) : Except String ObsCo := do
+  match j with
+  | .str "dflt" => return .dflt
+  | _ =>
+    if let .ok r := j.getObjVal? "ok" then return .ok (← lresOfJson r)
+    else if let .ok c := j.getObjValAs? String "other" then return .other c
+    else throw s!"bad co obs {j.compress}"
+
+def coOutToJson : CoOut → Json
+  | .ok i r => Json.mkObj [("ok", resToJson r), ("alt", toJson i)]
+  | .dflt => Json.str "dflt"
+  | .coalesceError => Json.mkObj [("other", "CoalesceError")]
+  | .other c => Json.mkObj [("other", c)]
+
+def stepsOfRawOps : List (String × Json) → Except String (List Step)
+  | [] => pure []
+  | (".", n) :: ("(", args) :: rest => do
+    let name ← strOfJson (← (do
+      match ← valOfJson n with
+      | .str s => pure (Json.str s)
+      | _ => throw "method name must be a string" : Except String Json))
+    return .call name (← listOfJson valOfJson args) :: (← stepsOfRawOps rest)
+  | ("(", _) :: _ => throw "a call must follow an attribute step"
+  | (op, a) :: rest => do
+    return Step.ofPair (op, ← valOfJson a) :: (← stepsOfRawOps rest)
+
+def stepsOfRawParts : List RawPart → Except String (List Step)
+  | [] => pure []
+  | .seg v :: r => do return .acc "P" v :: (← stepsOfRawParts r)
+  | .t ops :: r => do return (← stepsOfRawOps ops) ++ (← stepsOfRawParts r)
+
+/-- the `(op, arg)` pairs of a spelling without calls -/
+def pairsOfRawParts : List RawPart → Except String (List (String × Val))
+  | [] => pure []
+  | .seg v :: r => do return ("P", v) :: (← pairsOfRawParts r)
+  | .t ops :: r => do
+    let ps ← ops.mapM (fun (p : String × Json) => do
+      if p.1 == "(" then throw "a mutation path with a call is not modelled"
+      return (p.1, ← valOfJson p.2) : String × Json → Except String (String × Val))
+    return ps ++ (← pairsOfRawParts r)
+
 def clsOfJson (j : Json) : Except String (String × ClsInfo) := do
   match ← arrOf j with
   | [n, i] =>
     return (← strOfJson n, { mro := ← listOfJson strOfJson (← i.getObjVal? "mro"),
                               hasDict := ← i.getObjValAs? Bool "dict",
-                              iterable := ← i.getObjValAs? Bool "iter" })
+                              iterable := ← i.getObjValAs? Bool "iter",
+                              reg := (i.getObjValAs? String "reg").toOption.getD "" })
   | _ => throw s!"bad class entry {j.compress}"
 
 def obsOfJson (j : Json) : Except String (Option Obs) := do
@@ -76,11 +191,35 @@ def run (j : Json) : Except String Json := do
   let cs ← listOfJson clsOfJson (← j.getObjVal? "classes")
   let heap ← heapOfJson (← j.getObjVal? "heap")
   let target ← valOfJson (← j.getObjVal? "target")
+  let pathStar := (j.getObjValAs? Bool "path_star").toOption.getD true
+  if (← j.getObjVal? "impl") == Json.str "skip" then
+    return Json.mkObj [("skip", true), ("why", "two heap cells decoded to one interned object / a harness class outside its modelled use")]
+  -- ---------------------------------------------------------------- Coalesce / default
+  if let .ok (.obj co) := j.getObjVal? "co" then
+    let coJ := Json.obj co
+    if !(heapWF cs heap && classesWF cs) then
+      return Json.mkObj [("skip", true), ("why", "heap / class table not well-formed")]
+    let alts ← (← arrOf (← coJ.getObjVal? "alts")).mapM (fun a => do
+      pairsOfRawParts (← rawPartsOfSpelling pathStar a))
+    let hasD ← coJ.getObjValAs? Bool "default"
+    let via ← coJ.getObjValAs? String "via"
+    let m := if via == "glom" then glomDefault cs heap target hasD (alts.headD []) else coalesce cs heap target hasD alts 0
+    let ref := refCoalesce cs heap target hasD alts
+    let implJ ← j.getObjVal? "impl"
+    if implJ == Json.str "timeout" then
+      return Json.mkObj [("agree", false), ("holds", false), ("model", coOutToJson m), ("timeout", true), ("branch", "co-timeout")]
+    let o ← obsCoOfJson (← implJ.getObjVal? "co")
+    let kind := match m with
+      | .ok i (.list xs) => s!"alt{i}-" ++ (if xs.isEmpty then "empty" else "list")
+      | .ok i (.val _) => s!"alt{i}-value"
+      | .dflt => "default"
+      | .coalesceError => "CoalesceError"
+      | .other c => c
+    return Json.mkObj [("agree", checkCo m o), ("holds", checkCo ref o), ("model", coOutToJson m), ("timeout", false),
+      ("branch", Json.str (s!"co-{via}-n{alts.length}-" ++ (if hasD then "d-" else "") ++ (if pathStar then "" else "staroff-") ++ kind))]
   let sp ← j.getObjVal? "spelling"
-  let parts ← (do
-    if let .ok t := sp.getObjValAs? String "text" then return Glom.C01.partsOfText t.toList
-    else listOfJson partOfJson (← sp.getObjVal? "parts") : Except String (List Glom.C01.Part))
-  let allSteps := Glom.C01.stepsOfParts parts
+  let rawParts ← rawPartsOfSpelling pathStar sp
+  let stepsS ← stepsOfRawParts rawParts
   let mutJ := (j.getObjVal? "mut").toOption.getD Json.null
   let mutK : Option MutKind ← (match mutJ with
     | .null => pure none
@@ -93,15 +232,39 @@ def run (j : Json) : Except String Json := do
       else
         let ignore := (m.getObjValAs? Bool "ignore").toOption.getD false
         return some (.delete "P" ignore) : Except String (Option MutKind))
-  if (← j.getObjVal? "impl") == Json.str "skip" then
-    return Json.mkObj [("skip", true), ("why", "two heap cells decoded to one interned object")]
-  let implObs ← obsOfJson (← j.getObjVal? "impl")
   if !(heapWF cs heap && classesWF cs) then
     return Json.mkObj [("skip", true), ("why", "heap / class table not well-formed")]
   -- wildcard statistics for the histogram
-  let ops := allSteps.map (·.1)
-  let nx := (ops.filter (· == "x")).length
-  let nX := (ops.filter (· == "X")).length
+  let nx := (stepsS.filter (fun s => match s with | .star => true | _ => false)).length
+  let nX := (stepsS.filter (fun s => match s with | .starstar => true | _ => false)).length
+  let nc := (stepsS.filter (fun s => match s with | .call .. => true | _ => false)).length
+  let sroot := match j.getObjVal? "sroot" with | .ok (.obj _) => true | _ => false
+  let implJ ← j.getObjVal? "impl"
+  -- ---------------------------------------------------------------- a read
+  if mutK.isNone then
+    let m := modelReadS cs heap stepsS target
+    if unmodelledObs m then
+      return Json.mkObj [("skip", true), ("why", "a call outside the modelled vocabulary")]
+    let m := if sroot && !(remainderAtT "S") then
+        { m with out := OutS.other "the remainder of an S-rooted wildcard path restarts from the scope" } else m
+    if implJ == Json.str "timeout" then
+      return Json.mkObj [("agree", false), ("holds", false), ("model", obsSToJson m), ("timeout", true),
+        ("branch", (if sroot then "S:" else "") ++ s!"read-x{nx}-X{nX}-timeout")]
+    let o ← obsSOfJson (← implJ.getObjVal? "read")
+    let holds := checkC14S cs heap stepsS target o
+    let outcome := match m.out with
+      | .ok (.list _ xs) => if xs.isEmpty then "empty" else "list"
+      | .ok (.val _) => "value"
+      | .pae => "pae"
+      | .other c => c
+    return Json.mkObj [("agree", obsSEq m o), ("holds", holds), ("model", obsSToJson m), ("timeout", false),
+      ("branch", (if sroot then "S:" else "") ++ (if pathStar then "" else "staroff:") ++ s!"read-x{nx}-X{nX}" ++ (if nc > 0 then s!"-c{nc}" else "")
+        ++ (if m.heap == heap then "" else "-mutated") ++ s!"-{outcome}")]
+  -- ---------------------------------------------------------------- Assign / Delete
+  if heap.any (fun o => (clsInfo cs o.cls).reg != "") then
+    return Json.mkObj [("skip", true), ("why", "Assign / Delete on a target with user-registered types (assign handlers: C11-C13)")]
+  let allSteps ← pairsOfRawParts rawParts
+  let implObs ← obsOfJson implJ
   let (modelObs, holds, kindStr) ← (match mutK with
     | none =>
       let m := modelRead cs heap allSteps target
@@ -130,7 +293,6 @@ def run (j : Json) : Except String Json := do
     return Json.mkObj [("skip", true), ("why", "Assign(missing=) whose path fails before the first wildcard (C11)")]
   -- an S-rooted spelling: the model is the T-rooted evaluation of the same data only as far as the
   -- remainder after a wildcard is rooted at T in the source read on this run
-  let sroot := match j.getObjVal? "sroot" with | .ok (.obj _) => true | _ => false
   let modelObs := if sroot && !(remainderAtT "S") then
       Obs.other "the remainder of an S-rooted wildcard path restarts from the scope" else modelObs
   let agree := match implObs with
@@ -147,6 +309,6 @@ def run (j : Json) : Except String Json := do
   return Json.mkObj [("agree", agree), ("holds", holds),
     ("model", obsToJson modelObs),
     ("timeout", implObs.isNone),
-    ("branch", (if sroot then "S:" else "") ++ s!"{kindStr}-x{nx}-X{nX}-{outcome}")]
+    ("branch", (if sroot then "S:" else "") ++ (if pathStar then "" else "staroff:") ++ s!"{kindStr}-x{nx}-X{nX}-{outcome}")]
 
 end Glom.C14.Driver
